@@ -323,6 +323,9 @@ func (c *Canon) render(v ssa.Value, d int) string {
 	case *ssa.Call:
 		return c.call(v.Common(), d)
 	case *ssa.Phi:
+		if isInductionVar(v) {
+			return "‹i›"
+		}
 		if s, ok := c.itePhi(v, d); ok {
 			return s
 		}
@@ -412,6 +415,10 @@ func (c *Canon) calleeName(cc *ssa.CallCommon) string {
 
 func (c *Canon) call(cc *ssa.CallCommon, d int) string {
 	name := c.calleeName(cc)
+	if name == "(time.Time).After" && len(cc.Args) == 2 {
+		// a.After(b) == b.Before(a)
+		return "(time.Time).Before(" + c.termD(cc.Args[1], d+1) + "," + c.termD(cc.Args[0], d+1) + ")"
+	}
 	if strings.HasPrefix(name, "fmt.") || name == "errors.New" {
 		return name + "(…)" // message texts are not part of any rule
 	}
@@ -545,11 +552,39 @@ func (c *Canon) cmpAtom(b *ssa.BinOp, pos bool, d int) string {
 	return c.cmp2(op, x, y, d)
 }
 
+// foldAddConst: (x + c1) op c2  ==  x op (c2 - c1) for integer constants (no overflow concern
+// for the lengths and counts this is applied to: both forms are rendered identically).
+func foldAddConst(x ssa.Value, k *big.Int) (ssa.Value, *big.Int, bool) {
+	b, ok := stripConv(x).(*ssa.BinOp)
+	if !ok || (b.Op != token.ADD && b.Op != token.SUB) {
+		return nil, nil, false
+	}
+	if c1, ok := intConst(b.Y); ok {
+		if _, isC := intConst(b.X); isC {
+			return nil, nil, false
+		}
+		if b.Op == token.ADD {
+			return b.X, new(big.Int).Sub(k, c1), true
+		}
+		return b.X, new(big.Int).Add(k, c1), true
+	}
+	if c1, ok := intConst(b.X); ok && b.Op == token.ADD {
+		return b.Y, new(big.Int).Sub(k, c1), true
+	}
+	return nil, nil, false
+}
+
 func (c *Canon) cmp2(op token.Token, x, y ssa.Value, d int) string {
 	if _, ok := intConst(x); ok {
 		if _, ok2 := intConst(y); !ok2 {
 			x, y = y, x
 			op = mirrorOp(op)
+		}
+	}
+	if k, ok := intConst(y); ok {
+		if nx, nk, ok := foldAddConst(x, k); ok {
+			x = nx
+			y = ssa.NewConst(constant.MakeFromLiteral(nk.String(), token.INT, 0), types.Typ[types.Int64])
 		}
 	}
 	xs := c.termD(x, d+1)
